@@ -72,6 +72,7 @@ class Ctx(object):
             ex = self.executor()
             o, info = verify_function(ex, con, prop=self.prop)
             obs.extend(o)
+            info.pop("_why", None)
             self.fun_info.append(info)
             self.used_models |= ex.used_models
             self.used_contracts |= ex.used_contracts
@@ -295,10 +296,10 @@ def handle_refuted(ctx, pm, o, known, status, candidate=False):
     detail = None
     try:
         fn = getattr(pm, "replay", None)
-        if r.get("model") is not None:
+        if r.get("model") is not None or o.kind in ("C", "F"):
             if fn is not None:
-                replayed, detail = fn(ctx, o, r["model"])
-            if replayed is None:
+                replayed, detail = fn(ctx, o, r.get("model") or {})
+            if replayed is None and r.get("model") is not None:
                 # the property module has no harness for this function: the shared ones (contracts/replays.py)
                 from contracts.replays import replay as shared
                 r2, d2 = shared(ctx, o, r["model"])
